@@ -1,1 +1,133 @@
-"""Concrete replay drivers (real code + scripted fake device)."""
+"""Replay of a counter-model on the REAL code, for functions whose inputs are plain data (JSON values, integers,
+strings, bytes): the arguments are rebuilt from the solver's model, the real function is called under CPython, and what
+it does is compared with what the verifier's path predicted:
+
+  unwind obligation          the real call does not finish within the alarm (non-termination reproduced)
+  xpost:no-<Exception>       the real call raises that exception
+  post / inv obligations     the real call returns the value (or raises the exception) the path predicted: the
+                             behaviour the violated clause talks about is the real behaviour on this input
+
+Runs inside the worker that discharged the obligation (z3 models do not travel between processes)."""
+import importlib
+import json
+import logging
+import os
+import signal
+import sys
+
+from pyvc import terms as tm, solve
+from pyvc.values import Sym, JVal, Obj, Opaque
+from .modelrec import Rec, NotReconstructible
+
+REPO = os.environ.get("VERIF_REPO", "/repo")
+
+
+class _Timeout(Exception):
+    pass
+
+
+def _alarm(*a):
+    raise _Timeout()
+
+
+def native_target(file, qualname):
+    mw = os.path.join(REPO, "middleware")
+    if mw not in sys.path:
+        sys.path.insert(0, mw)
+    mod = importlib.import_module(file[:-3].replace("/", "."))
+    obj = mod
+    parts = qualname.split(".")
+    for p in parts:
+        obj = getattr(obj, p)
+    owner = getattr(mod, parts[0]) if len(parts) > 1 else None
+    return mod, owner, obj
+
+
+def describe(v):
+    try:
+        return json.dumps(v, default=lambda b: "bytes:" + bytes(b).hex())
+    except Exception:
+        return repr(v)
+
+
+def replay(ob, contract, seed=0):
+    """-> dict(confirmed=True|False|None, text=..., input=...)"""
+    env = ob.entry_env
+    if env is None:
+        return dict(confirmed=None, text="no entry environment recorded for this obligation")
+    assertions = list(ob.pc) + [tm.Not(ob.goal)]
+    r = solve.z3_check(assertions, 20000, want_model=True, seed=seed, rlimit=3000000)
+    if r.verdict != "sat" or r.model is None:
+        return dict(confirmed=None, text="no model from z3 (%s) to rebuild an input from" % r.verdict)
+    rec = Rec(r.model, assertions)
+    args = {}
+    try:
+        for name, v in env.items():
+            if name in ("self", "cls"):
+                continue
+            args[name] = rec.value(v)
+    except NotReconstructible as e:
+        return dict(confirmed=None, text="input not reconstructible from the model: %s" % e)
+    except Exception as e:      # noqa
+        return dict(confirmed=None, text="model evaluation failed: %s: %s" % (type(e).__name__, e))
+    try:
+        mod, owner, fn = native_target(contract.file, contract.qualname)
+    except Exception as e:      # noqa
+        return dict(confirmed=None, input=describe(args),
+                    text="the real module cannot be imported under CPython here (%s: %s)" % (type(e).__name__, e))
+    inp = describe(args)          # (before the call: the real code may update a request in place)
+    # receiver
+    call = None
+    name = contract.qualname.split(".")[-1]
+    if owner is None:
+        call = lambda: fn(**args)                                   # noqa: E731
+    elif name == "__init__":
+        call = lambda: owner(**args)                                # noqa: E731
+    elif isinstance(owner.__dict__.get(name), (classmethod, staticmethod)):
+        call = lambda: getattr(owner, name)(**args)                 # noqa: E731
+    else:
+        self_v = env.get("self")
+        inst = owner.__new__(owner)
+        if isinstance(self_v, Obj):
+            # fields the contract fixes to constants (e.g. an empty certificate before _parse)
+            pass
+        for k, dv in (("_targets", []), ("_elements", {})):
+            if hasattr(owner, "_parse") and not hasattr(inst, k):
+                setattr(inst, k, dv if not isinstance(dv, (list, dict)) else type(dv)())
+        inst.logger = logging.getLogger("replay")
+        call = lambda: getattr(inst, name)(**args)                  # noqa: E731
+    logging.disable(logging.CRITICAL)
+    old = signal.signal(signal.SIGALRM, _alarm)
+    signal.alarm(5)
+    outcome = None
+    try:
+        try:
+            res = call()
+            outcome = ("returned", res)
+        except _Timeout:
+            outcome = ("timeout", None)
+        except BaseException as e:      # noqa
+            outcome = ("raised", type(e).__name__, str(e)[:200])
+    finally:
+        signal.alarm(0)
+        signal.signal(signal.SIGALRM, old)
+    if ob.kind == "unwind":
+        ok = outcome[0] == "timeout"
+        return dict(confirmed=ok, input=inp, text="real call %s within 5 s" % ("did NOT finish" if ok else "finished: %r" % (outcome,)))
+    predicted_exc = ob.exc_class
+    if predicted_exc is not None:
+        ok = outcome[0] == "raised" and outcome[1] == predicted_exc
+        return dict(confirmed=ok, input=inp, text="verifier's path raises %s; the real call %s" % (predicted_exc, outcome,))
+    pv = ob.result_value
+    if pv is not None and pv[0] == "value":
+        try:
+            want = rec.value(pv[1])
+        except NotReconstructible as e:
+            return dict(confirmed=None, input=inp, text="real call %r; predicted result not reconstructible (%s)" % (outcome, e))
+        got = outcome[1] if outcome[0] == "returned" else None
+        if name == "__init__" and outcome[0] == "returned":
+            got = None          # a constructor "returns" the new instance; the path's result is None
+        same = outcome[0] == "returned" and (got == want or (isinstance(got, tuple) and isinstance(want, tuple) and tuple(got) == tuple(want)))
+        return dict(confirmed=bool(same), input=inp,
+                    text="verifier's path returns %r; the real call %s" % (want, "returned %r" % (got,) if outcome[0] == "returned" else outcome))
+    return dict(confirmed=None, input=inp, text="real call: %r (no prediction recorded for this kind of obligation)" % (outcome,))
